@@ -103,6 +103,19 @@ def values_of(kind, n, form, case=None):
 
 
 def _values_of(kind, n, form):
+    # further ways of writing a value list (pyxel.evaluator.eval_range): a Python expression given as text
+    # ("[1, 2]" / "range(..)" / a tuple in text), a tuple object, a bare number for a one-element list
+    if form in ("strlist", "strtuple", "tuple"):
+        vals, _ = _values_of(kind, n, "lit")
+        if form == "strlist":
+            return vals, str([list(v) if isinstance(v, (list, tuple)) else v for v in vals])
+        if form == "strtuple":
+            return vals, str(tuple(vals)) if len(vals) > 1 else f"({vals[0]!r},)"
+        return vals, tuple(vals)
+    if form == "strrange":
+        start = {"T": 150, "A1": 0, "A2": 10}[kind] + _s()
+        vals = [start + 20 * i for i in range(n)]
+        return vals, f"range({start}, {start + 20 * n}, 20)"
     s = _s()
     if kind == "T":
         vals = [150 + s + 100 * i for i in range(n)]
@@ -158,8 +171,15 @@ def table_values(kind, nrows):
     return values_of(kind, nrows, "lit")[0]
 
 
-def forms_of(kind):
-    return ("lit", "nparray", "nprange") if KINDS[kind][2] == 0 else ("lit",)
+def forms_of(kind, n=None):
+    # (a bare number instead of a list and a list of vectors written as text are refused loudly by the library: neither
+    #  is "a list given literally or as a numpy expression", so they are not part of the family)
+    if KINDS[kind][2]:
+        return ("lit",)
+    out = ("lit", "nparray", "nprange", "strlist", "strtuple", "tuple")
+    if kind in ("T", "A1", "A2"):
+        out += ("strrange",)
+    return out
 
 
 # ---------------------------------------------------------------- enumeration
@@ -185,7 +205,9 @@ def _form_pat(kinds, pat):
     """pat: 'lit' | 'np' (nparray for even positions, nprange for odd ones, where the kind allows)"""
     out = []
     for i, k in enumerate(kinds):
-        if pat == "lit" or KINDS[k][2]:
+        if pat == "txt":
+            out.append("lit" if KINDS[k][2] else ("strlist" if i % 2 == 0 else "tuple"))
+        elif pat == "lit" or KINDS[k][2]:
             out.append("lit")
         else:
             out.append("nparray" if i % 2 == 0 else "nprange")
@@ -211,7 +233,7 @@ def enumerate_cases(tier, seed):
     # ---- size 1: every kind x every length x every form
     for (kind,) in _ordered_sets(1, ["canon"]):
         for n in (1, 2, 3):
-            for form in forms_of(kind):
+            for form in forms_of(kind, n):
                 for mode in ("product", "sequential"):
                     for ex in EXEC:
                         add([kind], [n], [form], [True], mode, ex)
@@ -224,11 +246,11 @@ def enumerate_cases(tier, seed):
     for kinds in _ordered_sets(2, ["canon", "rev"]):
         for lens in L2:
             for en in _enabled_patterns(2):
-                for pat in ("lit", "np"):
+                for pat in ("lit", "np", "txt"):
                     forms = _form_pat(kinds, pat)
-                    if pat == "np" and forms == _form_pat(kinds, "lit"):
+                    if pat in ("np", "txt") and forms == _form_pat(kinds, "lit"):
                         continue
-                    if not thorough and pat == "np" and not all(en):
+                    if not thorough and pat in ("np", "txt") and not all(en):
                         continue
                     for mode in ("product", "sequential"):
                         for ex in EXEC:
